@@ -28,11 +28,14 @@ MANIFEST = {
             "results and searches for failing inputs.",
     "design_ref": "DESIGN.md §6 C14",
     "note": "Proved at ℝ: rounding is not modelled (measured by the Float run and the oracle "
-            "tolerances). UniformGrid::find + 1 < size is false in IEEE arithmetic a few ulp below "
-            "the last knot (reported with key uniformgrid-find-last-bin, ASan confirms the read past "
-            "the table). Monotonicity of the mean loss across the linear/range-curve switch and "
-            "loss = E at step = range need hypotheses the code does not enforce (theorems named "
-            "_partial; excluded points replayed on the real code). expm1/log1p enter the model as "
+            "tolerances). UniformGrid::find + 1 < size failed in IEEE arithmetic a few ulp below "
+            "the last knot until /repo f1d81dd (clamp, now modelled and proved for every number "
+            "type incl. Float); the oracle still reports key uniformgrid-find-last-bin if the real "
+            "find returns size-1 and the thorough tier re-runs the witness unguarded under ASan. "
+            "Monotonicity of the mean loss across the linear/range-curve switch and loss = E at "
+            "step = range need hypotheses the code does not enforce (theorems named _partial, "
+            "kernel-checked counter-examples meanLoss_*_fails, known findings replayed on the real "
+            "code from corpus/C14/meanloss_findings.ops). expm1/log1p enter the model as "
             "oracle inputs checked against libm by the harness. Log-interpolation variants of "
             "Interpolator are not used by these calculators and are not modelled.",
 }
